@@ -13,6 +13,30 @@ import zv
 VERIF = zv.VERIF
 BASELINE = os.path.join(VERIF, "spec", "baseline.json")
 KNOWN = os.path.join(VERIF, "known_findings.json")
+ASSUMED = os.path.join(VERIF, "spec", "assumed.json")
+
+
+def assumed_fns(unit_results):
+    """{unit: {fn path: fingerprint of its source text}} for the functions emitted as signature + contract only"""
+    out = {}
+    for unit, res in unit_results.items():
+        for it in res.items:
+            if it["kind"] == "fn" and "ASSUMED" in it.get("rules", []) and not it.get("split_arm"):
+                out.setdefault(unit, {})[it["name"]] = it["src_fingerprint"]
+    return out
+
+
+def check_assumed(unit_results):
+    """the body of an assumed function is outside every contract: when its text differs from the committed
+    fingerprint its assumed contract has not been re-validated -> undecided (never an alarm)"""
+    base = load_json(ASSUMED, {})
+    bad = []
+    for unit, fns in assumed_fns(unit_results).items():
+        for name, fp in fns.items():
+            want = base.get(unit, {}).get(name)
+            if want is not None and want != fp:
+                bad.append("%s: the text of assumed function %s changed; its assumed contract is not re-validated by any obligation" % (unit, name))
+    return bad
 
 
 def load_json(p, default):
@@ -277,10 +301,15 @@ def main(argv):
     undecided = list(cl["undecided"])
     undecided += assume_scan(results)
     undecided += split_coverage(results)
+    undecided += check_assumed(results)
     if update_baseline:
         base = load_json(BASELINE, {})
         base[pid] = {t: sorted(e["homes"]) for t, e in sorted(cl["per_tag"].items()) if not e.get("implicit")}
         json.dump(base, open(BASELINE, "w"), indent=1, sort_keys=True)
+        ab = load_json(ASSUMED, {})
+        for u, fns in assumed_fns(results).items():
+            ab[u] = fns
+        json.dump(ab, open(ASSUMED, "w"), indent=1, sort_keys=True)
         print("baseline for %s: %d tags" % (pid, len(base[pid])))
     undecided += ["baseline: " + m for m in check_baseline(pid, cl["per_tag"])]
     if cl["obligations"] == 0:
